@@ -145,7 +145,7 @@ def cold_sessions(b):
     out = []
     for order in ORDERS:
         argv = [sys.executable, "-c", COLD, json.dumps([list(p) for p in b]), text_of(b), json.dumps(list(order) + ["utility"])]
-        out.append((order, subprocess.Popen(argv, stdout=subprocess.PIPE, stderr=subprocess.PIPE, text=True)))
+        out.append((order, subprocess.Popen(argv, stdout=subprocess.PIPE, stderr=subprocess.PIPE, text=True, env=util.hash_env(16 + len(out)))))
     return out
 
 
